@@ -12,7 +12,25 @@ def rulesOf (d : Json) : List Bool :=
 def descJudge (d : Json) : Bool :=
   descOk (rulesOf d) (jint d "thr") ((jarr d "ids").map fun x => (ofHex (x.getStr?.toOption.getD "")).getD []) (jhex d "self")
 
+def parseFV (s : String) : FV :=
+  match s with
+  | "good" => .good | "absent" => .absent | "null" => .null | _ => .bad
+
+def parsePub (j : Json) : PubTree :=
+  { id := jhex j "id", ecdsa := parseFV (jstr j "ECDSA"), elgamal := parseFV (jstr j "ElGamal"),
+    n := parseFV (jstr j "N"), s := parseFV (jstr j "S"), t := parseFV (jstr j "T") }
+
+def parseCmpTree (j : Json) : CmpTree :=
+  { topNull := jbool j "topNull", id := jhex j "id", thr := jint j "thr",
+    ecdsa := parseFV (jstr j "ECDSA"), elgamal := parseFV (jstr j "ElGamal"), p := parseFV (jstr j "P"), q := parseFV (jstr j "Q"),
+    rid := parseFV (jstr j "RID"), chainKey := parseFV (jstr j "ChainKey"), pub := (jarr j "pub").map parsePub }
+
+def outStr : Start.Out → String
+  | .ok => "ok" | .err => "err" | .crash => "crash"
+
 def handle (op : String) (inp : Json) : Json :=
+  -- the predictive differential of the cmp restore model (suite `cmptree`): the guarded decoder's decision
+  if op == "cmptree" then jobj [("outcome", outStr (cmpRestore true (parseCmpTree (jget inp "tree"))))] else
   let o := jget inp "obs"
   if o.isNull then jobj [("ok", false), ("why", "no observation: the model has no such outcome")] else
   match op with
